@@ -17,7 +17,7 @@ notes={
 'C01':"Mutants rejected by U11 in scratch copies: `idx += len` without the whitespace, last whitespace not subtracted, penalty always pushed, slice from 0, indents swapped, non-empty sentinel word.",
 'C02':"The precondition `line_widths == expected_widths(options, first)` on the line breaker is taken from the statement (\"each line is measured against the indent it is actually rendered with\"); the pinned text failed exactly this obligation (F1). KF1 (below) is the one class where the letter of C02 is violated and nothing can be repaired.",
 'C03':"Rejected cost-model mutants: `gap` for `gap*gap`, last-line exemption dropped, prefix index off by one, hyphen/nline penalty dropped or moved into one branch (seed w4_C03_A), `i == j`, whitespace missing from the prefix sums.",
-'C05':"`<` → `<=` in the shortcut is not a C08/C01 violation and U11 rightly accepts it as far as those go; C05's contracts reject it.",
+'C05':"A mutant tried at authoring time (scratch copy, not among the seeds): `<` → `<=` in the shortcut's condition is not a C08/C01 violation, and U11's clauses tagged C08/C01 rightly accept it; C05's own clauses reject it.",
 'C14':"No single-call contract expresses idempotence without a full functional specification of `fill` (the composition of four word stages and a line breaker over uninterpreted floats). The deductive technique does not apply; the property is still claimed, at level `exploration`, through its bounded executable contract (the permitted bounded stand-in), never counted as proved.",
 'C16':"The equation splits into (i) how `refill` composes `unfill` and `fill` — one call, proved (U21) — and (ii) `unfill(fill(t, o1))` returns `t` and `o1`'s indents — two calls, bounded (C15's round trip). Findings KF2/KF3 live in (ii).",
 'C17':"Agreement with `wrap` would need U10's break positions and U11's slices to be related through one shared `first-fit runs` function of the same words; both units state their result in terms of the partition returned by `wrap_first_fit`, but the two-call comparison itself is bounded.",
@@ -47,13 +47,13 @@ seeded changes and which check catches which in §11.
      labelled *bounded* and never counted as proved. BEC is also the replay harness and the counterexample finder when
      Verus rejects an obligation (Verus gives no model).
 * **Functions of `/repo` under Verus contract** (each verifies on the current tree through the extractor; each was shown
-  to reject seeded mutants in a scratch copy; none raises an alarm on 25 + 12 behaviour-preserving refactors and 137 renames of locals, §8):
+  to reject seeded mutants in a scratch copy; none raises an alarm on 25 + 12 behaviour-preserving refactors, 16 small edits and 137 renames of locals, §8):
 
   | unit | functions of `/repo` | what is proved for all inputs | serves |
   |---|---|---|---|
   | U1 | `wrap_algorithms::wrap_first_fit` | ordered partition **and** greedy-maximal (the exact float comparison of the statement) | C06, C07, C02, C04 |
   | U2 | `optimal_fit::wrap_optimal_fit` | partition by back-tracking; the cost closure equals the documented cost model; no index/overflow panic | C06, C03, C04 |
-  | U3 | `core::skip_ansi_escape_sequence`, `display_width`, `strip_ansi_escape_sequences` | exact functional spec (`dw`), `<=` byte length, chunk lemmas, the stripped string is ESC-free-of-sequences; termination (ghost counter) | C10, C05, C13, C04 |
+  | U3 | `core::skip_ansi_escape_sequence`, `display_width`, `strip_ansi_escape_sequences` | exact functional spec (`dw`), `<=` byte length, chunk lemmas, the stripped string is the text without its escape sequences; termination (ghost counter) | C10, C05, C13, C04 |
   | U4 | `line_ending::NonEmptyLines::next` | exact spec, every slice on a char boundary, terminates | C15, C04 |
   | U5 | `columns::wrap_columns` | the complete layout of C20 relative to whatever `wrap` returns; no panic; theorem: for well-formed texts whose lines fit, every row is exactly gaps + columns + remainder wide | C20, C04 |
   | U6 | `core::Word::from`, `core::break_words` | lossless, spaces-only whitespace, cached width; dispatch is lossless / identity for narrow words | C11, C12, C01, C02 |
@@ -83,9 +83,9 @@ seeded changes and which check catches which in §11.
   statements that compare runs on *different* inputs through more than the paragraph structure (C13 end to end, C14, the round
   trip of C15/C16, agreement of `fill_inplace` with `wrap`) — C09's and C08's relational clauses are now theorems over
   `wrap`'s functional postcondition (U11) —, the real
-  tables of `unicode-linebreak` / `unicode-width` / `smawk` behind the assumed shapes.
+  tables of `unicode-linebreak` / `unicode-width` behind the assumed shapes, and that smawk's table holds *minima* (total monotonicity).
 * **Robustness of the machinery** (§8, §11): 168 seeded property-breaking changes that compile and pass the upstream suite
-  (5 reverted fixes + 163 from independent sub-agents in eleven waves) are all reported; 25 + 12 behaviour-preserving refactors and 16 small edits
+  (5 reverted fixes + 163 from independent sub-agents in eleven waves) are all reported; 25 + 12 behaviour-preserving refactors, 16 small edits and 137 renames of locals
   raise no alarm; every unit verifies under 8 different SMT seeds; the unchanged tree passes all 20 checks in both tiers.
 """)
 w(s1.rstrip()+"\n")
@@ -98,45 +98,49 @@ w("""## 2. Architecture
   MANIFEST.json          generated by tools/mkmanifest.py from tools/props.py
   known_findings.json    fixed: F1–F5 (five `fix:` commits in /repo); open: KF1–KF7
   contracts/u*.vrs       side-cars, one per unit (table in §0)
-  contracts/prelude/     shared pieces (`//@include`): Options / LineEnding extracted from /repo, ANSI spec (`skip_len`, `dw`, `strip`),
+  contracts/prelude/     shared pieces (`//@include`): Options / LineEnding extracted from /repo, specs of std functions (`std_more.vrs`), ANSI spec (`skip_len`, `dw`, `strip`),
                          the chunk model of well-formed texts with the additivity of display width over them (`ansi_chunks.vrs`), UTF-8 position lemmas (`fresh.vrs`), ASCII-boundary lemmas, `lines()` byte model
   contracts/skel/        code-only skeletons (generated by `vx.py derive`; anchors for the merge only, never verified)
   tools/vx.py            lexer, extractor, rule rewriter, closure conversion, three-way annotation merge, Verus driver, obligation map
   tools/kx.py  kani/     Kani driver (scratch copy outside /repo and /verif) and harnesses K1, K2, K3
   tools/props.py         per property: units, Kani harnesses, level, proved / bounded parts, trusted base
   tools/seedtest.py      applies seeded/<id>/patch.diff to /repo, runs the checks, undoes it -> seeded/RESULTS.json; seedreport.py -> RESULTS.md
+  tools/seedimport.sh, seedverify.sh   import a sub-agent's change as seeded/<id>/ and confirm it (suite passes, demo fails only with the patch);  seedverus.py  Verus-only sweep
+  tools/kfexpect.py      records the failing-input sets of the open known findings (known_findings.json `expected_sets`; by hand, unchanged tree)
   tools/harmless.py      behaviour-preserving refactors must not raise violations;  tools/stability.py  SMT-seed sweep
   tools/harmless2.py     independently written refactors (harmless/<id>/patch.diff) against every quick check;  tools/renames.py  rename campaign
   bec/                   bounded exhaustive contract checker (Rust; path dependency on /repo; `--cfg fuzzing`)
   seeded/<id>/           patch.diff, demo.rs, NOTES.md, meta.json — changes that break a property yet pass the suite
   evidence/<id>.json     rewritten by every run;   replays/<id>/<n>.json  written on violation
+  notes/                 mkdesign.py + design_s*.md generate this file from tools/props.py; prototypes and experiments of the design round
+  (unit numbers U7 and U19 are unused: U7 was merged into U6, U19 into U12)
 ```
 """)
 w(s21.rstrip()+"\n")
 w("""### 2.3 Back ends
 
 * **Verus**: one process per unit, 1–4 s each (U11: ≈ 13 s); all units of a property run in parallel.
-  `verus unit.rs --triggers-mode silent --output-json --time --error-format=json --multiple-errors 5`.
+  `verus unit.rs --triggers-mode silent --output-json --time --error-format=json --multiple-errors 5` (plus `--rlimit 20` for the units that say `//@rlimit 20`).
 * **Kani**: `kx.py` copies `/repo` (without `target/`, `.git/`) to a scratch directory **outside `/repo` and `/verif`**,
   appends the harness module to the copy of the named source file under `#[cfg(kani)]`, relaxes
   `#![forbid(unsafe_code)]` in the copy only, runs `CARGO_NET_OFFLINE=true cargo kani --harness …`, parses the result,
   deletes the copy and its `target/`. No commit to `/repo` is needed (`MANIFEST.hooks`: no source commits; guards are the
   compiler-provided `kani` cfg and upstream's existing `--cfg fuzzing`). **K1** `ch_width(c) <= c.len_utf8()`,
   `c: char = kani::any()`, loop-free, both feature sets, with a `should_panic` reachability twin — complete; quick tier of
-  C04, C05, C10 (2–10 s). **K3** the three float facts that U17 states as axioms (A16), over symbolic `usize` operands, with the conversion taken from the real `Fragment` accessor and a `should_panic` twin that drops the 2^53 bound — complete; quick tier of C05 (≈ 80 s, almost all of it the 64-bit adder). **K2** `wrap_first_fit`, 3 fragments with quarter-integer widths < 4, two line widths < 8: U1's
+  C04, C05, C10, C20 (2–10 s; it also checks that a space is one column wide, for C20). **K3** the three float facts that U17 states as axioms (A16), over symbolic `usize` operands, with the conversion taken from the real `Fragment` accessor and a `should_panic` twin that drops the 2^53 bound — complete; quick tier of C05 (≈ 80 s, almost all of it the 64-bit adder). **K2** `wrap_first_fit`, 3 fragments with quarter-integer widths < 4, two line widths < 8: U1's
   postconditions under real IEEE semantics — *bounded*, ≈ 10 min / 13 GB, thorough tier of C07. (The planned K4 for the
   SMAWK call shape was replaced first by the BEC contract `A6.smawk.call_shape` on the real `smawk` crate, then by the proof in U24.)
 * **BEC** (`/verif/bec`, `textwrap = { path = "/repo" }`, built offline with `--cfg fuzzing`, release profile with
   `overflow-checks` and `debug-assertions` on, default features and `--no-default-features`): contracts are Rust
   predicates returning `Result<bool, String>` (the bool counts non-trivial cases); enumerators produce *all* inputs of a
-  scope by index (rayon), with a hang watchdog. Wrap-level contracts run (i) every text of <= 4 (thorough 5) symbols over
-  an 8-symbol core alphabet, (ii) every text of <= 2 (thorough 3) symbols over a 23-symbol broad alphabet (tab, NBSP,
+  scope by index (rayon), with a hang watchdog. Wrap-level contracts run, typically, (i) every text of <= 4–5 (thorough 5–6) symbols over
+  a core alphabet of 7–9 symbols, (ii) every text of <= 2 (thorough 3) symbols over a 25-symbol broad alphabet (tab, NBSP,
   U+3000, CR, CRLF, ZWSP, combining mark, SHY, 你, 中 — whose UTF-8 ends in 0xAD —, emoji, CSI sequences ending in `m`,
-  `~` and `@`, an OSC hyperlink), (iii) 60 000 (thorough 10 000 000) seeded random texts of <= 40 symbols over the broad
-  alphabet; each × the option grid (2 algorithms × 2 separators × 3 splitters × break_words × 9 indent pairs incl.
-  multi-byte, zero-width, ANSI-coloured and wider-than-width ones; options also passed by reference) × 8 widths incl. 0
-  and `usize::MAX`. Each evidence file carries the exact scope strings, the number of evaluations and of non-trivial
-  cases. Oracles are independent of the code: UAX #14 opportunities from `unicode-linebreak` directly, widths from
+  `~` and `@`, an OSC hyperlink, an OSC title with a space, a hyperlink with a hyphenated URL), (iii) 60 000 (thorough 5–15 million) seeded
+  random texts of <= 40 symbols over the broad alphabet; each × an option grid drawn from 2 algorithms × 2 separators × 3 splitters ×
+  break_words × 9 indent pairs (multi-byte, zero-width, ANSI-coloured and wider-than-width ones included; options also passed by
+  reference) × 6–8 widths including 0 (and `usize::MAX` where the contract permits). These figures are indicative: **each evidence file
+  carries the exact scope strings**, the number of evaluations and of non-trivial cases. Oracles are independent of the code: UAX #14 opportunities from `unicode-linebreak` directly, widths from
   `unicode-width` directly, ANSI stripping and "well-formed" from the property text, minimum cost by brute force in exact
   integers. Failures may carry an input class (`[class=…]`), collected separately so that a recorded finding can never
   crowd out a different violation. Escape sequences in the wrap-level alphabets are terminated ones (the texts C10 and C13 speak about); unterminated
@@ -154,7 +158,8 @@ w("""### 2.3 Back ends
 * **undecided** (exit 2, no VIOLATION line) — lost anchor, item not found, Verus *compile/mode* error (e.g. a renamed
   captured variable of a converted closure, an unsupported new construct), rlimit/timeout, Kani out of memory, BEC build failure or
   watchdog. Never an alarm.
-* **known finding** — a violation matching an *open* entry of `known_findings.json` (property + input class) prints
+* **known finding** — a violation matching an *open* entry of `known_findings.json` (property + input class, and — at the default seed —
+  the recorded set of failing inputs of that class, §5: the same class on a different set of inputs is a VIOLATION) prints
   `KNOWN-FINDING: property=<id> …` and does not fail the run; `fixed:` entries suppress nothing; the file is never
   written at run time.
 
@@ -181,8 +186,14 @@ copies live in `mktemp -d` directories outside `/repo` and `/verif` and are remo
 `evidence/<id>.json` (schema-valid, written by `check`): functions under contract (path, span, sha256), rule
 applications, per-unit Verus result (`verified`, `errors`, SMT time, rlimit), probe results, Kani harness results, BEC
 scopes with `evaluations` / `distinct_nontrivial`, the trusted scan, the assumptions used (§3) and the level — `proof`
-only if every clause of the statement was discharged by Verus or loop-free Kani (assumed callee contracts named);
-`other` for mixtures (the explanation names the proved and the bounded parts); `exploration` for bounded-only.
+only if every clause of the statement is discharged by Verus or loop-free Kani (assumed callee contracts named), where (a) a clause
+that is the composition of contracts proved in different units, linked by an audited restated contract (§2.8, A9), counts as
+discharged relative to that link (this is how every multi-unit proof here works; C07's text-level reading and C03's last sentence
+are of this kind), and (b) a clause may fail on the input class of an *open known finding* — there the pinned code demonstrably
+violates the letter of the statement and the check says so (`KNOWN-FINDING`) — provided it is proved on the complement (C20's width
+sentence: proved for texts that do not end inside an escape sequence, false otherwise, KF7);
+`other` for mixtures (the explanation names the proved and the bounded parts; C18 is `other` because its two "therefore" corollaries are
+bounded-only); `exploration` for bounded-only.
 
 ### 2.8 How units are linked
 
@@ -209,7 +220,7 @@ restatement and callee would show up there within scope.
 | U12 `wrap_shortcut_line` | U11 `wrap` (clause tagged C05 C09) | same predicate `wrap_shortcut_applies`, same conclusion, in bytes |
 | U15, U20 `vx_skip_ansi_ci` | U3 `skip_ansi_escape_sequence` (any iterator obeying the iterator laws) | instance at `Map<&mut CharIndices, _>` (A4: `map`/`by_ref` only project / borrow) |
 | U20 `strip_ansi_escape_sequences`; `display_width` in U5, U6, U11, U14, U18 | U3 | same postcondition; consumers keep `dw` abstract |
-| U5, U12 `wrap`; U21 `unfill`, `fill` | — | no content: the result is only *named* by an uninterpreted function |
+| U5 `wrap`; U12 `wrap` beyond the shortcut clause above; U21 `unfill`, `fill` | — | no content: the result is only *named* by an uninterpreted function |
 
 **A correction this audit produced.** U6 used to assume of `break_apart` that its pieces tile the word *for every Word*.
 That is false for a hand-made `Word` with empty text, non-empty whitespace and a large `width` (the field is public):
@@ -245,9 +256,12 @@ The same device does not reach C14 (idempotence of `fill`), C13, C15/C16's round
 compare runs on *different texts* whose relation goes through what the word stages compute, not just through how `wrap`
 composes them.
 """)
-w("## 3. Trusted base (global; each evidence file lists what it used)\n")
-for k,v in props.TRUSTED.items():
-    w(f"* **{k}** {v[len(k)+1:] if v.startswith(k) else v}")
+w("## 3. Trusted base and discharged obligations (global; each evidence file lists what it used)\n\nEntries marked *(discharged)* started as assumptions and are now proved or model-checked; they stay listed, with the per-property lists of §4 citing them, so that the reader sees what the property rests on and where it is established.\n")
+for k in sorted(props.TRUSTED, key=lambda x: (x[0] != 'A', int(x[1:]))):
+    v = props.TRUSTED[k]
+    if k == 'R19':
+        continue
+    w(f"* **{k if k != 'R18' else 'R18, R19'}** {v[len(k)+1:] if v.startswith(k) else v}")
 w("")
 w("""## 4. Per property (generated from `tools/props.py`, which also feeds MANIFEST and the evidence)
 
@@ -256,7 +270,7 @@ w("""## 4. Per property (generated from `tools/props.py`, which also feeds MANIF
 for pid,cfg in props.PROPS.items():
     lvl=cfg['level']
     w(f"### {pid} — {titles[pid]} — level `{lvl}`")
-    w(f"* **Units:** {', '.join(cfg['units']) or '—'}" + (f"; **Kani:** {', '.join(k['name'] for k in cfg.get('kani', []))}" if cfg.get('kani') else '') + (f"; thorough tier additionally K2" if pid=='C07' else '') + f". **Assumptions:** {', '.join(cfg['trusted']) or '—'}.")
+    w(f"* **Units:** {', '.join(cfg['units']) or '—'}" + (f"; **Kani:** {', '.join(k['name'] + ('' if k.get('quick') else ' (thorough tier only, bounded)') for k in cfg.get('kani', []))}" if cfg.get('kani') else '') + f". **Assumptions:** {', '.join(cfg['trusted']) or '—'}.")
     if cfg.get('proved_part'): w(f"* **Proved (V/K):** {cfg['proved_part']}")
     if cfg.get('bounded_part'): w(f"* **Bounded (B):** {cfg['bounded_part']}")
     w(f"* {cfg['explanation']}")
@@ -287,7 +301,7 @@ the scope fail in that class and an order-independent fingerprint of their case 
 fingerprint reports a VIOLATION ("known finding KFx now shows on a different set of inputs") with one of them as replay. For other
 seeds the sampled inputs differ, nothing is recorded, and the class tag alone decides.
 
-* **KF1 (C02).** First-fit, `break_words` off, an indent that alone is wider than the width, and a rest of display width 0
+* **KF1 (C02).** First-fit, `break_words` off, the Unicode separator, an indent that alone is wider than the width, and a rest of display width 0
   that still contains a break opportunity, e.g. `wrap("\\u{200b}\\u{ad}", Options::new(0).initial_indent("> ").break_words(false))`
   `== ["> \\u{200b}\\u{ad}"]`: the line is 2 columns at width 0 and the part after the indent is *two* fragments, so the
   letter of C02 is violated; but the whole overflow is the indent's and no arrangement is narrower. Not repaired: breaking
@@ -313,7 +327,7 @@ seeds the sampled inputs differ, nothing is recorded, and the class tag alone de
   idempotent (C14). Not repaired: the ASCII separator is documented to split at every space, the hyphen splitter at every hyphen
   between alphanumerics; teaching them about escape sequences is a feature, not a minimal repair (the Unicode separator works on
   the stripped text and never splits a sequence at a space). The input class was first pointed out by sub-agents (seeds w4_C17_A,
-  w6_C02_A). Both findings share one class tag.
+  w6_C02_A). Both findings share one class tag (as do KF2 and KF3).
 
 * **KF7 (C20).** A wrapped line (or gap) that ends inside an unterminated escape sequence:
   `wrap_columns("a\\x1b]0; b c d", 2, 12, "|", "|", "|") == ["|a\\x1b]0; b c d   |     |"]` — the line is 1 column wide, nothing protrudes, yet the
@@ -325,13 +339,13 @@ seeds the sampled inputs differ, nothing is recorded, and the class tag alone de
 
 ## 6. Applicability statement
 
-Levels claimed in MANIFEST: `proof` — C06, C07, C08, C09, C10, C11, C12, C18, C19, C20 (every clause of the statement is a discharged Verus
-obligation or loop-free Kani fact, under the named assumptions); `other` — C01, C02, C03, C04, C05,
-C13, C15, C16, C17 (named functions proved for all inputs, named remainder bounded); `exploration` — C14: the deductive
+Levels claimed in MANIFEST: `proof` — C06, C07, C08, C09, C10, C11, C12, C19, C20 (every clause of the statement is a discharged Verus
+obligation or loop-free Kani fact, under the named assumptions, in the sense of §2.7); `other` — C01, C02, C03, C04, C05,
+C13, C15, C16, C17, C18 (named functions proved for all inputs, named remainder bounded); `exploration` — C14: the deductive
 technique does not apply (relational over two calls of `fill`; no contract within reach expresses it); it is claimed only
 through its bounded executable contract, labelled bounded. `not_applicable` in MANIFEST is empty because every property
 has a check; a reader who counts only deductive results should read C14 as not applicable. Reasons for every bounded remainder are the
-measured ones of §1: Kani cannot finish a 3-byte string or a 3-fragment optimal-fit; optimality needs real arithmetic;
+measured ones of §1: Kani cannot finish `find_words` / `wrap` on a 3-byte string or a 3-fragment optimal-fit; optimality needs real arithmetic;
 relational properties need a functional specification (done for `wrap` in U11, which gives C09 and C08; `fill`'s idempotence and the
 unfill/refill round trips would need the inverse direction as well); Verus has no float theory.
 Creusot, Prusti and Aeneas are not installed; nothing here depends on them.
@@ -367,11 +381,12 @@ repairs before they were committed.
   or a rename could not be followed because it came with such a restructuring) until the side-car is re-anchored (`vx.py derive` after adjusting the names); the bounded
   contracts of the same property still ran and passed on the refactored code, and every property whose units do not touch the
   refactored function still exits 0. An *undecided* is reported as such — never as a violation, never as a pass.
-* **SMT-seed stability** (`tools/stability.py`): all 21 units verify under Z3 random seeds 1–8 (max rlimit 17 M for U5,
-  28 M for U11 with `//@rlimit 20`). U1 was restructured around an opaque state predicate with step lemmas after it failed under two seeds; a U11
-  lemma was split in three for the same reason.
+* **SMT-seed stability** (`tools/stability.py`): all 22 units verify under Z3 random seeds 1–8 (largest per-function rlimit counts: 30 M for U5 and 27 M for U11, which run with
+  `//@rlimit 20`, as do U13 and U24; every other unit stays below 11 M under the default limit). U1 was restructured around an opaque state predicate with step
+  lemmas after it failed under two seeds; a U11 lemma was split in three, U24's fill loop (126 M → 6 M) and U13's collecting loop (which diverged under
+  seed 5) were rebuilt around opaque predicates with step lemmas for the same reason.
 * **Seeded property-breaking changes**: §11.
-* **`vp check`** on a fresh copy: nothing needed attention.
+* **Fresh-copy run** (`vp check`, the sandbox's own rehearsal: restore a fresh copy offline, run `MANIFEST.setup_cmd`, then every quick command with its evidence file removed): nothing needed attention (last run after U24 and the known-finding sets were added).
 """)
 w("""## 9. Departures from the original plan
 
@@ -381,15 +396,14 @@ w("""## 9. Departures from the original plan
 * `dedent` (U9), `unfill` (U18), `refill` (U21), `fill` (in U12), `split_points` (U16), the algorithm dispatch (U17) and
   `strip_ansi_escape_sequences` (in U3) were outside the plan's reach estimate and are under contract.
 * A10 (char-boundary safety of wrap's slices; `from_utf8(..).unwrap()` in `fill_inplace`) is discharged, not assumed.
-* K4 (Kani on `smawk`) was replaced by a BEC contract on the real crate; K2's bound is smaller than planned
-  (quarter-integer widths, ≈ 10 min) and it runs in the thorough tier only.
-* C18 rose from `exploration` to `proof`; C11 from `other` to `proof` (completeness of the Unicode word finder proved); C16 from `exploration` to `other`;
+* K2's bound is smaller than planned (quarter-integer widths, ≈ 10 min) and it runs in the thorough tier only; K4 (Kani on `smawk`) was not built (see the last bullet).
+* C18 rose from `exploration` to `other` (margin rule and output shape proved; the two corollaries bounded); C11 from `other` to `proof` (completeness of the Unicode word finder proved); C16 from `exploration` to `other`;
   C08 and C09 from `other` to `proof` (functional postcondition of `wrap`, §2.9).
 * A8 (termination of `display_width`) and A16 (float exactness, by Kani K3) are discharged; two std facts about `str::split` are proved for a scan model instead of assumed.
 * The merge follows consistent renames of bound locals (§2.1); it did not in the plan.
 * The `smawk` dependency is verified (U24) instead of assumed (A6); the plan listed its contract under "assumed contracts on dependencies".
 
-## 10. Corrections made to the machinery (false alarms on the unchanged tree)
+## 10. Reports on the unchanged tree and what was done (false alarms corrected, genuine findings recorded)
 
 | check | what it reported | verdict | what was done |
 |---|---|---|---|
@@ -401,6 +415,7 @@ w("""## 9. Departures from the original plan
 | C15/C16 BEC | round trip fails with `break_words` on and an indent-only first line | **code violates C15/C16** | repair tried, upstream test pins the behaviour, reverted; known findings KF2/KF3 (§5) |
 | C18 BEC (new sampled pass) | `dedent` not idempotent on `"a\\r\\r\\n b"` | **code violates the corollary stated in C18** | known finding KF4 (§5), class-tagged |
 | C02 BEC (broad alphabet + OSC title with a space) | a line `indent ++ "\\r\\x1b]0;a"` too wide although it holds "more than one non-zero-width character" | check wrong: it counted the characters hidden inside the (cut-off) sequence as visible; the part after the indent has one visible character, C02's exception | visible characters are counted the way C10 defines the display width, also for sequences that are cut short |
+| C20 BEC (the opener of an unterminated OSC sequence added to the column alphabet, when the width theorem's hypothesis was written down) | a row whose cell leaves a sequence open is narrower than gaps + columns + remainder | **code violates the letter of C20's second sentence** | known finding KF7 (§5), class-tagged and set-pinned; the theorem is stated for texts that do not end inside a sequence |
 | C05, C14 BEC (same alphabet, and a hyperlink with a hyphenated URL) | a fitting paragraph with such a sequence is returned as two lines; `fill` is then not idempotent | **code violates the letter of C05 / C14** | known findings KF5, KF6 (§5), one class tag |
 | Verus → property mapping | a failed `requires` of a prelude callee was attributed to C04 only | machinery wrong | tags are read on any line of the failing span; `requires` lines carry tags |
 | probe | a `//@probe` inside `({ let …;` produced a syntax error that was reported as vacuity | machinery wrong | probe compile errors are distinguished from a verifying probe |
@@ -411,18 +426,28 @@ the property states.
 
 ## 11. Seeded changes and what catches them
 
-`seeded/` holds 168 changes that compile, pass the upstream suite in both feature sets, and break a property: the 5
-reverted fixes and 163 produced by independent sub-agents given **only** the property text and a scratch worktree (wave 1–2:
-two per property; wave 3: cooperating edits / indirect helpers / wrong fast paths; wave 4–5: changes that need something
-specific to manifest, avoiding the most obvious single-token edits; wave 6: with a hint which file to change; wave 7: with the
-ideas that earlier waves over-used forbidden (ASCII width shortcuts, `trim_end()`, byte lengths of indents, early return in `refill`);
-wave 8: changes that only show with a non-default option value or feature set — all 13 reported without any strengthening;
-wave 9: 15 more with a longer list of forbidden ideas — again all reported as the checks stood;
-wave 11: 6 more of that kind for C03, C04, C10, C13, C14, C16 — three misses on first contact, see the table;
-wave 10: 14 changes *disguised as refactors* — renamed locals, restructured loops, extracted helpers, with one of the "equivalent" rewrites not equivalent — all reported as the checks stood: where the restructuring leaves the Verus unit undecided, the bounded contracts of the same property decide). Each was confirmed by `tools/seedverify.sh` (patch applies; suite passes in both feature sets;
-its demonstration fails with the patch and passes without). `tools/seedtest.py` applies each to `/repo`, runs the checks
-of the properties it breaks, and undoes it; `seeded/RESULTS.json` is its output and **`seeded/RESULTS.md` the full table**
-(seed, property, files changed, Verus obligations failed, BEC contracts failed, undecided units, verdict).
+`seeded/` holds 168 changes that compile, pass the upstream suite in both feature sets, and break a property: the 5 reverted
+fixes and 163 produced by independent sub-agents given **only** the property text and a scratch worktree:
+
+* waves 1–2 (40): two per property;
+* wave 3 (20): cooperating edits, indirect helpers, wrong fast paths;
+* waves 4–5 (23): changes that need something specific to manifest, avoiding the most obvious single-token edits;
+* wave 6 (20): with a hint which file to change (the one seed w6_C07_A carries the same patch as w6_C11_A and was relabelled C11 — it
+  is counted once per directory, see the table);
+* wave 7 (12): with the ideas that earlier waves over-used forbidden (ASCII width shortcuts, `trim_end()`, byte lengths of indents, an
+  early return in `refill`);
+* wave 8 (13): changes that only show with a non-default option value or feature set — all reported without any strengthening;
+* wave 9 (15): a longer list of forbidden ideas — again all reported as the checks stood;
+* wave 10 (14): changes *disguised as refactors* — renamed locals, restructured loops, extracted helpers, with one of the "equivalent"
+  rewrites not equivalent — all reported as the checks stood: where the restructuring leaves the Verus unit undecided, the bounded
+  contracts of the same property decide;
+* wave 11 (6): more of that kind for C03, C04, C10, C13, C14, C16 — three misses on first contact, see the table.
+
+Each change was confirmed by `tools/seedverify.sh` (patch applies; suite passes in both feature sets; its demonstration fails with
+the patch and passes without). `tools/seedtest.py` applies each to `/repo`, runs the checks of the properties it breaks, and undoes
+it; `seeded/RESULTS.json` is its output and **`seeded/RESULTS.md` the full table** (seed, property, files changed, Verus obligations
+failed, BEC contracts failed, undecided units, verdict). After every change to the checks the whole set is run again (last: 192 of
+192 (change, property) pairs reported).
 
 Misses on first contact and what was strengthened (never by weakening a check):
 
@@ -446,7 +471,7 @@ Misses on first contact and what was strengthened (never by weakening a check):
 | 7 | w7_C15_A (`unfill` stops measuring lines once the common indent is empty) | round-trip paragraphs had at most three words in the quick tier, so never four lines | a pass over fixed paragraphs of 6–8 words (widest line first / last / in the middle) |
 
 **Verus on its own** (`tools/seedverus.py`, `seeded/VERUS.json`: each change applied to a scratch copy, only the Verus units run):
-a Verus obligation rejects 69 of the 162 changes (1 of the 14 disguised as refactors); the others end *undecided* in Verus (a new construct without a spec, a
+a Verus obligation rejects 69 of the 168 changes (1 of the 20 disguised as refactors); the others end *undecided* in Verus (a new construct without a spec, a
 loop rewritten so that a rewrite rule no longer applies, a lost anchor) or touch code whose contract does not see them
 (`ch_width`'s table — decided by the exhaustive scalar enumeration and Kani K1). Three things raised that share (from 29 to 42 of the first 77 changes):
 (i) specs for the std functions such edits typically reach for (`str::trim_end` / `trim_start` / `trim`, `char::is_ascii`,
@@ -457,5 +482,15 @@ byte-length comparison); (iii) unit U22 for `options.rs`. Deliberately *not* giv
 could only be left unconstrained (`str::contains` with a generic pattern) — an unconstrained guard would turn a harmless
 fast path into an unprovable obligation, i.e. a false alarm instead of an honest *undecided*.
 """)
+# the "serves" column of the unit table in section 0 is derived from tools/props.py (units and Kani harnesses per property)
+def _serves(uid):
+    ps = []
+    for pid, cfg in props.PROPS.items():
+        if uid in cfg.get('units', []) or any(k['name'].startswith(uid + '.') for k in cfg.get('kani', [])):
+            ps.append(pid)
+    return ', '.join(sorted(ps))
+_txt = '\n'.join(out)
+_txt = re.sub(r'^(  \| ([UK]\d+) \|.*\| )[^|]*\|$', lambda m: m.group(1) + _serves(m.group(2)) + ' |', _txt, flags=re.M)
+out = _txt.split('\n')
 open('/verif/DESIGN.md','w').write('\n'.join(out))
 print(len('\n'.join(out).split('\n')),'lines')
